@@ -91,7 +91,7 @@ def check_C16(tier):
     cfgd = core.scratch_dir("mpv-e2-")
     cfg0 = os.path.join(cfgd, "m.cfg")
     with open(cfg0, "w") as f:
-        f.write("CONSTANTS AllKinds = FALSE\nINIT InitMissing\nNEXT Next\nCHECK_DEADLOCK FALSE\n")
+        f.write("CONSTANTS AllKinds = FALSE Pairs = FALSE\nINIT InitMissing\nNEXT Next\nCHECK_DEADLOCK FALSE\n")
     r0 = core.run_tlc("MPEems2", cfg0, workers=1, timeout=300, javaopts=jo)
     if r0.error or r0.rc != 0:
         core.tlc_fail(r0, "MPEems2 (targets)")
@@ -103,7 +103,7 @@ def check_C16(tier):
         chk.finding("C16:table:TargetMissing:%s" % n, "EEMS 2.0 name %s is mapped to %s, which no library defines" % (n, tgt), {"name": n, "target": tgt})
     cfg = os.path.join(cfgd, "e.cfg")
     with open(cfg, "w") as f:
-        f.write("CONSTANTS AllKinds = FALSE\nINIT Init\nNEXT Next\nCHECK_DEADLOCK FALSE\nINVARIANT ImageIsV3\nINVARIANT ConvertIdempotent\nINVARIANT ShapeKept\n")
+        f.write("CONSTANTS AllKinds = FALSE Pairs = FALSE\nINIT Init\nNEXT Next\nCHECK_DEADLOCK FALSE\nINVARIANT ImageIsV3\nINVARIANT ConvertIdempotent\nINVARIANT ShapeKept\n")
     dump = os.path.join(cfgd, "st")
     r = core.run_tlc("MPEems2", cfg, workers=8, timeout=900, dump=dump, javaopts=jo)
     if r.violated or r.error or r.rc != 0:
@@ -175,7 +175,7 @@ def trace_validate(chk, records, decl_dir):
     d = core.scratch_dir("mpv-e2t-")
     cfg = os.path.join(d, "t.cfg")
     with open(cfg, "w") as f:
-        f.write("CONSTANTS AllKinds = FALSE\nINIT TInit\nNEXT TNext\nCHECK_DEADLOCK FALSE\nINVARIANT TReport\n")
+        f.write("CONSTANTS AllKinds = FALSE Pairs = FALSE\nINIT TInit\nNEXT TNext\nCHECK_DEADLOCK FALSE\nINVARIANT TReport\n")
     path = os.path.join(d, "t.ndjson")
     with open(path, "w") as f:
         for r in records:
